@@ -308,6 +308,14 @@ def check_psf_images(case, ctx):
             init['local_bkg'] = init['local_bkg'] * u.Jy
     elif rep == 'nddata':
         d_in = NDData(d_in)
+    elif rep == 'float32':
+        d_in = d_in.astype('f4')
+    elif rep == 'int32':
+        # integer count image (x8 so that the sources survive the rounding)
+        d_in = np.round(d_in * 8).astype('i4')
+        init['flux'] = init['flux'] * 8
+        if case['local_bkg']:
+            init['local_bkg'] = init['local_bkg'] * 8
     ph = PSFPhotometry(model, (5, 5), aperture_radius=4)
     with warnings.catch_warnings():
         warnings.simplefilter('ignore')
@@ -342,7 +350,8 @@ def psf_image_cases(draw):
             'seed': draw(st.integers(0, 10**5)), 'border': draw(st.sampled_from([0, 4, 8])),
             'local_bkg': draw(st.booleans()),
             'include_localbkg': draw(st.booleans()),
-            'rep': draw(st.sampled_from(['array', 'array', 'quantity', 'nddata']))}
+            'rep': draw(st.sampled_from(['array', 'array', 'quantity', 'nddata',
+                                         'float32', 'int32']))}
 
 
 SUBCHECKS = [
